@@ -18,7 +18,7 @@ def dispatch (op : String) : Option (List String → String → Res) :=
   | "builder" => some hBuilder
   | "nextone" => some hNextOne | "prevone" => some hPrevOne
   | "tbl" => some hTblIdxToPath
-  | "builderprobe" => some hProbeOk | "ofmanyprobe" => some hProbeOk | "tbprobe" => some hProbeOk | "bmprobe" => some hProbeOk | "pathstrprobe" => some hProbeOk | "gcprobe" => some hProbeOk | "cmpuptoprobe" => some hProbeOk | "buildersetprobe" => some hProbeOk | "swbigprobe" => some hProbeOk | "shardprobe" => some hProbeOk
+  | "builderprobe" => some hProbeOk | "ofmanyprobe" => some hProbeOk | "tbprobe" => some hProbeOk | "bmprobe" => some hProbeOk | "pathstrprobe" => some hProbeOk | "gcprobe" => some hProbeOk | "cmpuptoprobe" => some hProbeOk | "buildersetprobe" => some hProbeOk | "swbigprobe" => some hProbeOk | "shardprobe" => some hProbeOk | "fdbprobe" => some hProbeOk
   | "join" => some hJoin | "joinprobe" => some hJoinProbe | "getw" => some hGetw | "slice" => some hSlice
   | "fromstr32" => some hFromStr32
   | "tb" => some hTb
